@@ -2,7 +2,6 @@ package formatter
 
 import (
 	"strings"
-	"unicode"
 	"unicode/utf8"
 
 	"go.lsp.dev/protocol"
@@ -406,12 +405,12 @@ func writeAmountWithSign(sb *strings.Builder, amount *ast.Amount, commodityForma
 }
 
 // commodityText returns the symbol as it must be written: in double quotes
-// when it contains anything but letters and currency signs.
+// unless the lexer reads it back as the same commodity without them. Letters
+// of other scripts, lower-case words and currency signs the lexer does not
+// know would otherwise turn into text that no longer parses as an amount.
 func commodityText(symbol string) string {
-	for _, r := range symbol {
-		if !unicode.IsLetter(r) && !unicode.Is(unicode.Sc, r) {
-			return "\"" + symbol + "\""
-		}
+	if !parser.IsPlainCommodity(symbol) {
+		return "\"" + symbol + "\""
 	}
 	return symbol
 }
